@@ -78,38 +78,42 @@ def lastIsName (b : Bytes) : Bool :=
 def parseBool (s : String) : Option Bool :=
   if s == "0" then some false else if s == "1" then some true else none
 
-/-- script of one File object: `w<hex>` write, `s<whence>:<offset>` seek, `r` readAll, `z` size -/
-def runScript (fs : Fs) (fd : Fd) : List String → Fs × String
-  | [] => (fs, "")
+/-- script of one File object: `w<hex>` write, `s<whence>:<offset>` seek, `r` readAll, `z` size;
+    parsing stops at the first malformed item (second component) -/
+def parseScript : List String → List FileOp × Bool
+  | [] => ([], true)
   | it :: rest =>
     let c := it.take 1
     let arg := (it.drop 1).toString
-    if c == "w" then
-      match fromHex arg with
-      | none => (fs, " bad")
-      | some d =>
-        let (fs', fd', ok) := fileWrite fs fd d
-        let (fs'', out) := runScript fs' fd' rest
-        (fs'', s!" w={b01 ok}" ++ out)
-    else if c == "r" then
-      let (fd', r) := fileReadAll fs fd
-      let (fs'', out) := runScript fs fd' rest
-      (fs'', (match r with | some d => s!" r={toHex d}" | none => " r=fail") ++ out)
-    else if c == "z" then
-      let (fd', r) := fileSize fs fd
-      let (fs'', out) := runScript fs fd' rest
-      (fs'', (match r with | some n => s!" z={n}" | none => " z=-1") ++ out)
-    else if c == "s" then
-      match arg.splitOn ":" with
-      | [w, o] =>
-        match (if w == "0" then some Whence.set else if w == "1" then some Whence.cur else if w == "2" then some Whence.end_ else none), o.toInt? with
-        | some wh, some off =>
-          let (fd', r) := fileSeek fs fd off wh
-          let (fs'', out) := runScript fs fd' rest
-          (fs'', (match r with | some n => s!" s={n}" | none => " s=-1") ++ out)
-        | _, _ => (fs, " bad")
-      | _ => (fs, " bad")
-    else (fs, " bad")
+    let op : Option FileOp :=
+      if c == "w" then (fromHex arg).map FileOp.write
+      else if c == "r" && arg == "" then some .readAll
+      else if c == "z" && arg == "" then some .size
+      else if c == "s" then
+        match arg.splitOn ":" with
+        | [w, o] =>
+          match (if w == "0" then some Whence.set else if w == "1" then some Whence.cur else if w == "2" then some Whence.end_ else none), o.toInt? with
+          | some wh, some off => some (.seek off wh)
+          | _, _ => none
+        | _ => none
+      else none
+    match op with
+    | none => ([], false)
+    | some op => let (ops, ok) := parseScript rest; (op :: ops, ok)
+
+def outStr : FileOut → String
+  | .wrote ok => s!" w={b01 ok}"
+  | .pos (some n) => s!" s={n}"
+  | .pos none => " s=-1"
+  | .data (some d) => s!" r={toHex d}"
+  | .data none => " r=fail"
+  | .size (some n) => s!" z={n}"
+  | .size none => " z=-1"
+
+def runScript (fs : Fs) (fd : Fd) (items : List String) : Fs × String :=
+  let (ops, ok) := parseScript items
+  let (fs', _, outs) := runOps fs fd ops
+  (fs', String.join (outs.map outStr) ++ (if ok then "" else " bad"))
 
 def fsOp (fs : Fs) (ws : List String) : Option (Fs × String) :=
   match ws with
